@@ -315,6 +315,33 @@ def run_nibsrc(chk):
             if i != m:
                 fails.append(corr("nibsrc:" + name, "%s(%d): the source appends %s, its translation %s" % (name, v, i, m)))
                 return fails
+    # the integer readers and the list size: byte lists of every short length, bytes at the field boundaries
+    def readr(fn, args, bs):
+        buf = list(bs)
+        try:
+            v = fn(*(args + [buf]))
+        except Exception:
+            return "raised"
+        if not isinstance(v, int):
+            return "raised"
+        return "ret %d %s" % (v, bytes(buf).hex() if buf else "-")
+    edge = [0, 1, 15, 16, 127, 128, 255]
+    lists = [[]]
+    for ln in range(1, 6):
+        for _ in range(14):
+            lists.append([chk.rng.choice(edge) if chk.rng.random() < 0.6 else chk.rng.randrange(256) for _ in range(ln)])
+    for bs in lists:
+        for name in ("readInt8", "readInt16", "readInt20", "readInt24", "readInt31"):
+            i, m = readr(getattr(dec, name), [], bs), chk.driver.ask("coder nibsrc r %s 0 %s" % (name, bytes(bs).hex() if bs else "-"))
+            chk.hit("nibsrc:" + name, i.split()[0])
+            if i != m:
+                fails.append(corr("nibsrc:" + name, "%s(%s): the source gives %s, its translation %s" % (name, bs, i, m)))
+                return fails
+        for tok in (0, 248, 249, 250, 1, 255):
+            i, m = readr(dec.readListSize, [tok], bs), chk.driver.ask("coder nibsrc r readListSize %d %s" % (tok, bytes(bs).hex() if bs else "-"))
+            if i != m:
+                fails.append(corr("nibsrc:readListSize", "readListSize(%d, %s): the source gives %s, its translation %s" % (tok, bs, i, m)))
+                return fails
     # the property on the real functions: what is packed unpacks to the same character
     for t in (251, 255):
         for c in range(0, 256):
